@@ -124,3 +124,172 @@ Definition c02_nv (text : string) (n : nat) : Prop :=
 Example C02_all_handlers_nonvacuous :
   c02_nv "x.a" 1 /\ c02_nv "x[0].*" 1 /\ c02_nv "**[.=a]" 1 /\ c02_nv "x.*[a!=2]" 1 /\ c02_nv "x[-1][a:b]" 1.
 Proof. vm_compute. repeat split. Qed.
+(* ====================================================================== *)
+(* The reported path, fed back into a query on the same document, resolves to
+   exactly the node it was reported for (proofs: Proofs/ResolveWr.v ResolveText.v
+   ResolveEval.v ResolveMain.v; vocabulary: Model/PathBuild.v).
+
+   [build_path sp l]  the text str() shows for the path of location l in notation sp
+                      (one escape_path_section(str(key), sep) per mapping key / set
+                      member, "[i]" per sequence position);
+   [build_orig l]     the `.original` text Processor builds by repeated `path + segment`;
+   [pb_safe sp d l]   the explicit, computable guard: every key on the way is a string
+                      that escape_path_section can protect ([safe_key]: not empty, no "*",
+                      no leading "&", no back-slash directly before a back-slash / the
+                      separator / ( [ ] blank or a quote) or an integer whose digits are not
+                      also a string key of the same mapping; a set member is such a string;
+                      in dot notation the first key does not start with "/" and is not
+                      blank to str.strip(); the document is not null.  Findings F26
+                      (C02) = F-C07-2 = F5 (C06) are exactly the complement: witnesses below.
+   [pb_coords d l n]  the NodeCoords of the one result: node n, its parent and
+                      reference (C02_result_located), the ancestry of the way, the
+                      reported path build_orig l.
+   All oracles / parameters of the evaluator are universally quantified. *)
+From YP Require Import C08Spec RtCanon PathBuild ResolveWr ResolveText ResolveEval ResolveMain.
+
+(* both notations; keys with every escapable character (example below) *)
+Theorem C02_path_resolves_partial :
+  forall lit re_search nstr vstr kw_handler creator (sp : sep) (d : node) (l : loc) (n : node) (f : nat),
+    lookup d l = Some n -> pb_safe sp d l = true ->
+    exists p, prepare (S f) (build_path sp l) = Ok p
+              /\ get_required lit re_search nstr vstr kw_handler creator p d = ([pb_coords d l n], Done).
+Proof. exact resolve_query. Qed.
+Print Assumptions C02_path_resolves_partial.
+
+(* the single result reports the append-form text of l; that text, fed back,
+   yields the same single result again *)
+Theorem C02_reported_path_resolves_partial :
+  forall lit re_search nstr vstr kw_handler creator (d : node) (l : loc) (n : node) (f : nat),
+    lookup d l = Some n -> pb_safe Dot d l = true ->
+    match pb_coords d l n with RCoords _ _ _ path _ => path | _ => "" end = build_orig l
+    /\ exists p, prepare (S f) (build_orig l) = Ok p
+                 /\ get_required lit re_search nstr vstr kw_handler creator p d = ([pb_coords d l n], Done).
+Proof. exact reported_path_loop. Qed.
+Print Assumptions C02_reported_path_resolves_partial.
+
+(* str() of the reported path after its separator was set to either notation
+   (what harness/c02.py re-queries) resolves to the node as well *)
+Theorem C02_reported_path_canonical_partial :
+  forall lit re_search nstr vstr kw_handler creator (sp' : sep) (d : node) (l : loc) (n : node) (f : nat),
+    lookup d l = Some n -> pb_safe Dot d l = true -> pb_safe sp' d l = true ->
+    exists t p, canon sp' (build_orig l) = Ok t /\ prepare (S f) t = Ok p
+                /\ get_required lit re_search nstr vstr kw_handler creator p d = ([pb_coords d l n], Done).
+Proof. exact resolve_query_canon. Qed.
+Print Assumptions C02_reported_path_canonical_partial.
+
+(* in dot notation str() of the reported path is build_path *)
+Theorem C02_str_of_reported_path_partial :
+  forall (d : node) (l : loc), pb_safe Dot d l = true -> canon Dot (build_orig l) = Ok (build_path Dot l).
+Proof. exact canon_orig_dot. Qed.
+Print Assumptions C02_str_of_reported_path_partial.
+
+(* the result's coordinates: parent[parentref] is the node, the ancestry ends
+   with that link, the path is the reported text *)
+Theorem C02_result_located :
+  forall (d : node) (l0 : loc) (r : ref) (p n : node),
+    lookup d l0 = Some p -> child p r = Some n ->
+    exists path anc0,
+      pb_coords d (l0 ++ [r])%list n
+      = RCoords (RNode n) (Some (RNode p)) (Some (ref_val r)) path (anc0 ++ [(RNode p, ref_val r)])%list
+      /\ path = build_orig (l0 ++ [r])%list.
+Proof. exact pb_coords_located. Qed.
+Print Assumptions C02_result_located.
+
+(* every result of ANY query whose reported path is the text of its location:
+   re-evaluating that path returns that node and no other *)
+Theorem C02_any_result_resolves_partial :
+  forall lit re_search nstr vstr kw_handler creator (d : node) (l : loc) (n : node) (f : nat)
+         (x : rval) par rf path anc,
+    x = RCoords (RNode n) par rf path anc -> path = build_orig l ->
+    lookup d l = Some n -> pb_safe Dot d l = true ->
+    exists p, prepare (S f) path = Ok p
+              /\ get_required lit re_search nstr vstr kw_handler creator p d = ([pb_coords d l n], Done).
+Proof. exact any_result_resolves. Qed.
+Print Assumptions C02_any_result_resolves_partial.
+
+(* escape_path_section writes a key in the form [wr]: a back-slash doubled, a
+   listed symbol back-slashed unless it follows a back-slash of the key *)
+Theorem C02_escape_section_written :
+  forall (sp : sep) (k : string),
+    pb_no_bs_before ["\"%char] k = true -> escape_path_section k (sep_char sp) = wr (sec_set sp) false k.
+Proof. exact escape_section_written. Qed.
+Print Assumptions C02_escape_section_written.
+
+(* ---- non-vacuity: a key containing EVERY escapable character (back-slash, dot,
+   slash, parentheses, brackets, caret, dollar, percent, blank, both quotes),
+   nested sequences, an integer key, a set ---- *)
+Definition esc_key : string := "a\b.c/d(e)f[g]h^i$j%k l'm""n".
+Definition doc_esc : node :=
+  NMap (inf3 0)
+    [ (leaf3 1 (PStr esc_key),
+       NSeq (inf3 2) [ leaf3 3 (PInt 0);
+                       NSeq (inf3 4) [ NMap (inf3 5) [ (leaf3 6 (PStr "x y"), leaf3 7 (PStr "deep")) ;
+                                                        (leaf3 8 (PInt 12), leaf3 9 (PStr "int key")) ] ] ]);
+      (leaf3 10 (PStr "s"), NSet (inf3 11) [ leaf3 12 (PStr "m.1"); leaf3 13 (PStr "m/2") ]) ].
+Definition loc_deep : loc := [RKey (PStr esc_key); RIdx 1; RIdx 0; RKey (PStr "x y")].
+Definition loc_int : loc := [RKey (PStr esc_key); RIdx 1; RIdx 0; RKey (PInt 12)].
+Definition loc_member : loc := [RKey (PStr "s"); RMember (PStr "m/2")].
+
+Example C02_safe_key_every_escapable :
+  safe_key "."%char esc_key = true /\ safe_key "/"%char esc_key = true
+  /\ safe_key "."%char "a\)b\^c\$d\%e\" = true.
+Proof. vm_compute. repeat split; reflexivity. Qed.
+
+Example C02_path_resolves_nonvacuous :
+  pb_safe Dot doc_esc loc_deep = true /\ pb_safe Slash doc_esc loc_deep = true
+  /\ pb_safe Dot doc_esc loc_int = true /\ pb_safe Slash doc_esc loc_member = true
+  /\ lookup doc_esc loc_deep = Some (leaf3 7 (PStr "deep"))
+  /\ build_path Dot loc_deep = "a\\b\.c/d\(e\)f\[g\]h\^i\$j\%k\ l\'m\""n[1][0].x\ y"
+  /\ build_path Slash loc_deep = "/a\\b.c\/d\(e\)f\[g\]h\^i\$j\%k\ l\'m\""n[1][0]/x\ y"
+  /\ build_orig loc_deep = "a\\b\.c/d\(e\)f\[g\]h\^i\$j\%k\ l\'m\""n.[1].[0].x\ y"
+  /\ build_path Slash loc_member = "/s/m\/2".
+Proof. vm_compute. repeat split; reflexivity. Qed.
+
+(* the theorem's conclusion computed on the instance (a test, not the proof) *)
+Example C02_path_resolves_instance :
+  match prepare 1 (build_path Slash loc_deep) with
+  | Ok p => get_required lit3 re3 (fun _ => "") (fun _ => "") kw3 cr3 p doc_esc
+            = ([pb_coords doc_esc loc_deep (leaf3 7 (PStr "deep"))], Done)
+  | _ => False
+  end
+  /\ match prepare 1 (build_path Dot loc_int) with
+     | Ok p => map (fun x => match x with RCoords (RNode n) _ _ _ _ => node_oid n | _ => 999%N end)
+                   (fst (get_required lit3 re3 (fun _ => "") (fun _ => "") kw3 cr3 p doc_esc)) = [9%N]
+     | _ => False
+     end.
+Proof. vm_compute. split; reflexivity. Qed.
+
+(* ---- the guard is needed: findings F26 (each clause of [safe_key] / [pb_safe]) ---- *)
+Definition oids_of (g : gen rval) : list N :=
+  map (fun x => match x with RCoords (RNode n) _ _ _ _ => node_oid n | _ => 999%N end) (fst g).
+Definition requery (sp : sep) (d : node) (l : loc) : option (list N) :=
+  match prepare 1 (build_path sp l) with
+  | Ok p => Some (oids_of (get_required lit3 re3 (fun _ => "") (fun _ => "") kw3 cr3 p d))
+  | _ => None
+  end.
+Definition doc_odd : node :=
+  NMap (inf3 0)
+    [ (leaf3 1 (PStr "*"), leaf3 2 (PInt 1)); (leaf3 3 (PStr "b"), leaf3 4 (PInt 2));
+      (leaf3 5 (PStr "&d"), leaf3 6 (PInt 3)); (leaf3 7 (PStr "/lead"), leaf3 8 (PInt 4));
+      (leaf3 9 (PStr "a\.b"), leaf3 10 (PInt 5)); (leaf3 11 (PStr ""), leaf3 12 (PInt 6));
+      (leaf3 13 (PStr "1"), leaf3 14 (PInt 7)); (leaf3 15 (PInt 1), leaf3 16 (PInt 8));
+      (leaf3 17 (PStr "c\\d"), leaf3 18 (PInt 9)) ].
+
+Theorem C02_path_resolves_refuted :
+  (* "*" is re-read as a wildcard: every value of the mapping is returned *)
+  (lookup doc_odd [RKey (PStr "*")] = Some (leaf3 2 (PInt 1))
+   /\ pb_safe Dot doc_odd [RKey (PStr "*")] = false
+   /\ requery Dot doc_odd [RKey (PStr "*")] = Some [2; 4; 6; 8; 10; 12; 14; 16; 18]%N)
+  (* "&d" is re-read as an anchor name, "/lead" as forward-slash notation, the
+     empty key as no segment (the root), "a\.b" as two keys, "c\\d" as "c\d" *)
+  /\ (pb_safe Dot doc_odd [RKey (PStr "&d")] = false /\ requery Dot doc_odd [RKey (PStr "&d")] = Some [])
+  /\ (pb_safe Dot doc_odd [RKey (PStr "/lead")] = false /\ requery Dot doc_odd [RKey (PStr "/lead")] = Some []
+      /\ pb_safe Slash doc_odd [RKey (PStr "/lead")] = true /\ requery Slash doc_odd [RKey (PStr "/lead")] = Some [8%N])
+  /\ (pb_safe Dot doc_odd [RKey (PStr "")] = false /\ requery Dot doc_odd [RKey (PStr "")] = Some [0%N])
+  /\ (pb_safe Dot doc_odd [RKey (PStr "a\.b")] = false /\ requery Dot doc_odd [RKey (PStr "a\.b")] = Some []
+      /\ pb_safe Slash doc_odd [RKey (PStr "a\.b")] = true /\ requery Slash doc_odd [RKey (PStr "a\.b")] = Some [10%N])
+  /\ (pb_safe Dot doc_odd [RKey (PStr "c\\d")] = false /\ requery Dot doc_odd [RKey (PStr "c\\d")] = Some [])
+  (* the integer key 1 next to the string key "1": the text "1" finds the string key *)
+  /\ (lookup doc_odd [RKey (PInt 1)] = Some (leaf3 16 (PInt 8))
+      /\ pb_safe Dot doc_odd [RKey (PInt 1)] = false /\ requery Dot doc_odd [RKey (PInt 1)] = Some [14%N]).
+Proof. vm_compute. repeat split; reflexivity. Qed.
